@@ -100,18 +100,21 @@ def prebuild(spec):
             mine.append(o)
         allo = os.path.join(bdir, "parsec_all.o")
         stamp = os.path.join(ddir, "parsec_all.stamp")
-        st = os.stat(allo) if os.path.exists(allo) else None
-        cur = "%d %d" % (st.st_mtime_ns, st.st_size) if st else ""
-        need = (not os.path.exists(stamp)) or open(stamp).read() != cur
-        if not need:
-            need = any(os.path.getmtime(o) > os.path.getmtime(allo) for o in stock + mine)
-        if need:
+        st = os.stat(allo)
+        # stamp = "<mtime_ns> <size> <newest private object mtime_ns>" of our last relink.  ninja only looks at the mtime it
+        # recorded for its own (stock) parsec_all.o, so the relinked file keeps that mtime: the stock link is not redone on
+        # every check, and when ninja does rewrite the file (a library source changed) mtime/size differ from the stamp.
+        newest_mine = max(os.stat(o).st_mtime_ns for o in mine)
+        cur = "%d %d %d" % (st.st_mtime_ns, st.st_size, newest_mine)
+        if (not os.path.exists(stamp)) or open(stamp).read() != cur:
             P.log("devbuild ld -r parsec_all.o (+device_gpu, transfer_gpu, private insert_function/data/mca_repository)")
             tmp = allo + ".dev.tmp"
             P.run(["ld", "-r", "-o", tmp] + stock + mine)
             os.replace(tmp, allo)
+            keep = max(st.st_mtime_ns, newest_mine)
+            os.utime(allo, ns=(keep, keep))
             st = os.stat(allo)
-            open(stamp, "w").write("%d %d" % (st.st_mtime_ns, st.st_size))
+            open(stamp, "w").write("%d %d %d" % (st.st_mtime_ns, st.st_size, newest_mine))
     return allo
 
 
